@@ -44,7 +44,10 @@ func (l *DList[T]) Unshift(value T) {
 	head := l.DoubleNode
 
 	newNode.next = &head
-	l.prev = newNode
+	head.prev = &l.DoubleNode
+	if head.next != nil {
+		head.next.prev = &head
+	}
 
 	// Move the pointer to the new node.
 	l.DoubleNode = *newNode
